@@ -31,7 +31,7 @@ impl IoDriver {
     }
 
     pub(crate) async fn open(&self, path: impl AsRef<Path>) -> IOResult<File> {
-        File::from_file(path, |f| f.create(false).append(true).read(true)).await
+        File::from_file(path, |f| f.create(false).write(true).read(true)).await
     }
 
     pub(crate) async fn create(&self, path: impl AsRef<Path>) -> IOResult<File> {
